@@ -1,5 +1,10 @@
 import CoxeterVerif.Lemmas.Planar
 import CoxeterVerif.Lemmas.PlanarFrame
+import CoxeterVerif.Lemmas.PlanarFan
+import CoxeterVerif.Lemmas.PlanarIntegral
+import CoxeterVerif.Lemmas.PlanarCert
+import CoxeterVerif.Lemmas.PlanarFrameExists
+import CoxeterVerif.Lemmas.PlanarLebesgue
 /-!
   # C04 — polygon area, centroid, planar/polar moments are exact
 
@@ -597,5 +602,550 @@ example : Poly2.inertiaTensor exSq ⟨0, 0, 1⟩ M3.one M3.one =
   · simp [exSqT]
 
 example : Poly2.perimeter exTilt.reverse = Poly2.perimeter exTilt := perimeter_reverse_invariant _
+
+
+/-! ## The "exact integrals" are ITERATED INTEGRALS
+
+  `TriInt.integral2 f Ts = Σ_t J_t · ∫₀¹∫₀^{1−s} f(a + s(b−a) + u(c−a)) du ds`, `J_t = (b−a)×(c−a)` (xy-plane), and
+  `TriInt.integral3 n f Ts` with `J_t = n·((b−a)×(c−a))` (any plane): the integral of `f` over the standard
+  triangle pushed forward by the affine parametrisation of each triangle (`Lemmas/PlanarIntegral.lean`;
+  the closed forms of `Spec/Planar.lean`, `Spec/Planar3.lean` are PROVED from Mathlib's fundamental theorem
+  of calculus).  The theorems above, restated without any closed form: -/
+
+open TriInt
+
+theorem oriented_jac2 {s : ℝ} {Ts : List (Tri ℝ)} (ho : OrientedBy s Ts) : ∀ t ∈ Ts, 0 < s * jac2 t := by
+  intro t ht; have := ho t ht; rw [jac2_eq]; linarith
+
+theorem oriented_jac3 {n : V3 ℝ} {s : ℝ} {Ts : List (Tri ℝ)} (ho : OrientedBy3 n s Ts) :
+    ∀ t ∈ Ts, 0 < s * jac3 n t := by
+  intro t ht; have := ho t ht; rw [jac3_eq]; linarith
+
+/-- shoelace sum = `2 ∫ 1 dA` -/
+theorem polygon_shoelace_integral {w : List (V3 ℝ)} {Ts : List (Tri ℝ)} (h : Triangulates w Ts) :
+    Scalar.sum (List.zipWith Poly2.delta w (Poly2.rotl 1 w)) = 2 * integral2 (fun _ => 1) Ts := by
+  rw [polygon_shoelace_exact h, area_integral]
+
+/-- **signed area (xy-plane)** `= ∫ 1 dA` -/
+theorem signedArea_xy_integral {vs : List (V3 ℝ)} {Ts : List (Tri ℝ)} (h : Triangulates vs Ts) :
+    Poly2.signedArea vs ⟨0, 0, 1⟩ = integral2 (fun _ => 1) Ts := by
+  rw [signedArea_xy_exact h, area_integral]
+
+/-- **centroid (xy-plane)** `= (∫ x dA, ∫ y dA) / ∫ 1 dA` -/
+theorem centroid_xy_integral {vs : List (V3 ℝ)} {Ts : List (Tri ℝ)} (h : Triangulates vs Ts)
+    (hA : integral2 (fun _ => 1) Ts ≠ 0) :
+    (Poly2.centroid vs ⟨0, 0, 1⟩ M3.one).x = integral2 (fun p => p.x) Ts / integral2 (fun _ => 1) Ts ∧
+    (Poly2.centroid vs ⟨0, 0, 1⟩ M3.one).y = integral2 (fun p => p.y) Ts / integral2 (fun _ => 1) Ts := by
+  rw [← area_integral] at hA ⊢
+  have h0 := first_integral Ts 0
+  have h1 := first_integral Ts 1
+  simp only [V3.get_zero, V3.get_one] at h0 h1
+  rw [← h0, ← h1]
+  exact centroid_xy_exact h hA
+
+/-- **planar moments** `(I_x, I_y, I_xy) = s · (∫ y² dA, ∫ x² dA, ∫ xy dA)` in the aligned frame; `s ·` the signed
+iterated integral is the unsigned one (`integral2_oriented`: every triangle enters with `|J|`). -/
+theorem planarMoments_integral {vs : List (V3 ℝ)} (R : M3 ℝ) {Ts : List (Tri ℝ)} {s : ℝ}
+    (hs : s = 1 ∨ s = -1) (h : Triangulates (Poly2.align R vs) Ts) (ho : OrientedBy s Ts) (hne : Ts ≠ []) :
+    Poly2.planarMoments vs R =
+      (s * integral2 (fun p => p.y * p.y) Ts, s * integral2 (fun p => p.x * p.x) Ts,
+       s * integral2 (fun p => p.x * p.y) Ts) := by
+  have h00 := second_integral Ts 0 0
+  have h11 := second_integral Ts 1 1
+  have h01 := second_integral Ts 0 1
+  simp only [V3.get_zero, V3.get_one] at h00 h11 h01
+  rw [planarMoments_exact R hs h ho hne, h00, h11, h01]
+
+/-- … and with the absolute Jacobians spelled out -/
+theorem planarMoments_integral_abs {vs : List (V3 ℝ)} (R : M3 ℝ) {Ts : List (Tri ℝ)} {s : ℝ}
+    (hs : s = 1 ∨ s = -1) (h : Triangulates (Poly2.align R vs) Ts) (ho : OrientedBy s Ts) (hne : Ts ≠ []) :
+    Poly2.planarMoments vs R =
+      ((Ts.map (fun t => triIntegral |jac2 t| (fun p => p.y * p.y) t)).sum,
+       (Ts.map (fun t => triIntegral |jac2 t| (fun p => p.x * p.x) t)).sum,
+       (Ts.map (fun t => triIntegral |jac2 t| (fun p => p.x * p.y) t)).sum) := by
+  rw [planarMoments_integral R hs h ho hne]
+  simp only [integral2_oriented hs _ (oriented_jac2 ho)]
+
+/-- **polar moment** `= s · ∫ (x² + y²) dA` in the aligned frame -/
+theorem polarMoment_integral {vs : List (V3 ℝ)} (R : M3 ℝ) {Ts : List (Tri ℝ)} {s : ℝ}
+    (hs : s = 1 ∨ s = -1) (h : Triangulates (Poly2.align R vs) Ts) (ho : OrientedBy s Ts) (hne : Ts ≠ []) :
+    Poly2.polarMoment vs R = s * integral2 (fun p => p.x * p.x + p.y * p.y) Ts := by
+  rw [polarMoment_exact R hs h ho hne, polar2_integral]
+
+/-- **signed area, any plane** `= ∫ 1 dA` (signed about `n`) -/
+theorem signedArea_general_integral {vs : List (V3 ℝ)} {n : V3 ℝ} {d : ℝ} {Ts : List (Tri ℝ)}
+    (hpl : InPlane n d vs) (hn : V3.norm n = 1) (h : Triangulates vs Ts) :
+    Poly2.signedArea vs n = integral3 n (fun _ => 1) Ts := by
+  rw [signedArea_general_tri hpl hn h, area3_integral]
+
+/-- **area, any plane** `= Σ_t |J_t| ∫∫ 1` -/
+theorem area_general_integral {vs : List (V3 ℝ)} {n : V3 ℝ} {d s : ℝ} {Ts : List (Tri ℝ)}
+    (hs : s = 1 ∨ s = -1) (hpl : InPlane n d vs) (hn : V3.norm n = 1) (h : Triangulates vs Ts)
+    (ho : OrientedBy3 n s Ts) (hne : Ts ≠ []) :
+    Poly2.area vs n = (Ts.map (fun t => triIntegral |jac3 n t| (fun _ => 1) t)).sum := by
+  rw [area_general_tri hs hpl hn h ho hne, area3_integral, integral3_oriented hs n _ (oriented_jac3 ho)]
+
+/-- **centroid, any plane**: every coordinate `= ∫ r_i dA / ∫ 1 dA` -/
+theorem centroid_general_integral {vs : List (V3 ℝ)} {n : V3 ℝ} {d : ℝ} {R : M3 ℝ} {Ts : List (Tri ℝ)}
+    (hF : IsFrame R n) (hpl : InPlane n d vs) (hT : TrisInPlane n d Ts) (h : Triangulates vs Ts)
+    (hA : integral3 n (fun _ => 1) Ts ≠ 0) (i : Nat) :
+    (Poly2.centroid vs n R).get i = integral3 n (fun p => p.get i) Ts / integral3 n (fun _ => 1) Ts := by
+  rw [← area3_integral] at hA
+  rw [centroid_general_exact hF hpl hT h hA, centroid3_integral]
+
+/-- **polar moment, any plane** `= s · ∫ |r − d n|² dA` : squared distance from the normal axis through the origin -/
+theorem polarMoment_general_integral {vs : List (V3 ℝ)} {n : V3 ℝ} {d s : ℝ} {R : M3 ℝ}
+    {Ts : List (Tri ℝ)} (hF : IsFrame R n) (hs : s = 1 ∨ s = -1) (hT : TrisInPlane n d Ts)
+    (h : Triangulates vs Ts) (ho : OrientedBy3 n s Ts) (hne : Ts ≠ []) :
+    Poly2.polarMoment vs R = s * integral3 n (fun r => V3.normSq (r - V3.smul d n)) Ts := by
+  rw [polarMoment_general_exact hF hs hT h ho hne, polar3_integral]
+
+/-- **planar moments of a tilted polygon are stated w.r.t. the frame**: with `e₁, e₂` the first two rows of `R`
+(the in-plane axes chosen by kabsch), `(I_x, I_y, I_xy) = s · (∫ (e₂·r)² dA, ∫ (e₁·r)² dA, ∫ (e₁·r)(e₂·r) dA)`,
+integrals over the polygon in its own plane.  (They DO depend on the in-plane frame; the polar moment, the
+centroid and the inertia tensor do not: `…_frame_independent` below.) -/
+theorem planarMoments_frame_integral {vs : List (V3 ℝ)} {n : V3 ℝ} {s : ℝ} {R : M3 ℝ} {Ts : List (Tri ℝ)}
+    (hF : IsFrame R n) (hs : s = 1 ∨ s = -1) (h : Triangulates vs Ts) (ho : OrientedBy3 n s Ts)
+    (hne : Ts ≠ []) :
+    Poly2.planarMoments vs R =
+      (s * integral3 n (fun r => (M3.mulVec R r).y * (M3.mulVec R r).y) Ts,
+       s * integral3 n (fun r => (M3.mulVec R r).x * (M3.mulVec R r).x) Ts,
+       s * integral3 n (fun r => (M3.mulVec R r).x * (M3.mulVec R r).y) Ts) := by
+  have htri : Triangulates (Poly2.align R vs) (Ts.map (Tri.map (M3.mulVec R))) :=
+    EdgeChainEq.map_vertices _ h
+  have hor : OrientedBy s (Ts.map (Tri.map (M3.mulVec R))) := by
+    intro t' ht'
+    simp only [List.mem_map] at ht'
+    obtain ⟨t, ht, rfl⟩ := ht'
+    rw [hF.triArea_eq]; exact ho t ht
+  rw [planarMoments_integral R hs htri hor (by simpa using hne)]
+  simp only [integral2_map_frame hF]
+
+/-- the in-plane axes: `(R r).x = e₁ · r`, `(R r).y = e₂ · r` with `e₁, e₂` the rows of `R` -/
+theorem mulVec_rows (R : M3 ℝ) (r : V3 ℝ) :
+    (M3.mulVec R r).x = V3.dot ⟨R.xx, R.xy, R.xz⟩ r ∧ (M3.mulVec R r).y = V3.dot ⟨R.yx, R.yy, R.yz⟩ r :=
+  ⟨rfl, rfl⟩
+
+/-- **inertia tensor, any plane, any frame matrices** `= J n nᵀ + A (|c|² 1 − c cᵀ)` with
+`A = Σ|J_t|∫∫1`, `J = Σ|J_t|∫∫|r − c|²` and `c` the exact centroid (`centroid3_integral`: `c_i = ∫r_i / ∫1`). -/
+theorem inertiaTensor_general_integral {vs : List (V3 ℝ)} {n : V3 ℝ} {d s : ℝ} {R R2 : M3 ℝ}
+    {Ts : List (Tri ℝ)} (hF : IsFrame R n) (hF2 : IsFrame R2 ⟨0, 0, 1⟩) (hs : s = 1 ∨ s = -1)
+    (hpl : InPlane n d vs) (hT : TrisInPlane n d Ts) (h : Triangulates vs Ts)
+    (ho : OrientedBy3 n s Ts) (hne : Ts ≠ []) :
+    Poly2.inertiaTensor vs n R R2 =
+      Spec3.axisTensor n
+        (Ts.map (fun t => triIntegral |jac3 n t| (fun r => V3.normSq (r - Spec3.centroid n Ts)) t)).sum
+        (Ts.map (fun t => triIntegral |jac3 n t| (fun _ => 1) t)).sum
+        (Spec3.centroid n Ts) := by
+  rw [inertiaTensor_general_exact hF hF2 hs hpl hT h ho hne, polar3_integral, area3_integral,
+    integral3_oriented hs n _ (oriented_jac3 ho), integral3_oriented hs n _ (oriented_jac3 ho)]
+
+/-! ## Triangulation-free statements (signed fan) and frame independence -/
+
+/-- `d n` is a point of the plane `n · v = d` -/
+theorem dot_smul_self {n : V3 ℝ} (hn : V3.normSq n = 1) (d : ℝ) : V3.dot n (V3.smul d n) = d := by
+  simp only [V3.normSq, V3.dot, V3.smul_x, V3.smul_y, V3.smul_z] at hn ⊢
+  linear_combination d * hn
+
+/-- **centroid without any triangulation hypothesis**: for EVERY vertex list in the plane with non-zero
+`n · areaVector`, the returned centroid is the exact centroid of the signed fan from the foot `d n` of the
+normal axis. -/
+theorem centroid_general_fan {vs : List (V3 ℝ)} {n : V3 ℝ} {d : ℝ} {R : M3 ℝ}
+    (hF : IsFrame R n) (hpl : InPlane n d vs) (hA : V3.dot n (Spec3.areaVector vs) ≠ 0) :
+    Poly2.centroid vs n R = Spec3.centroid n (fanTris (V3.smul d n) vs) := by
+  have hT : TrisInPlane n d (fanTris (V3.smul d n) vs) := fan_inPlane (dot_smul_self hF.normSq_eq d) hpl
+  have h : Triangulates vs (fanTris (V3.smul d n) vs) := fan_triangulates _ _
+  exact centroid_general_exact hF hpl hT h (by rw [← areaVector_triangulation n h]; exact hA)
+
+/-- **the centroid does not depend on the in-plane frame** chosen by kabsch (any two matrices meeting the
+contract give the same point) — for every planar vertex list of non-zero signed area. -/
+theorem centroid_frame_independent {vs : List (V3 ℝ)} {n : V3 ℝ} {d : ℝ} {R R' : M3 ℝ}
+    (hF : IsFrame R n) (hF' : IsFrame R' n) (hpl : InPlane n d vs)
+    (hA : V3.dot n (Spec3.areaVector vs) ≠ 0) : Poly2.centroid vs n R = Poly2.centroid vs n R' := by
+  rw [centroid_general_fan hF hpl hA, centroid_general_fan hF' hpl hA]
+
+/-- the polar moment does not depend on the in-plane frame -/
+theorem polarMoment_frame_independent {vs : List (V3 ℝ)} {n : V3 ℝ} {d s : ℝ} {R R' : M3 ℝ}
+    {Ts : List (Tri ℝ)} (hF : IsFrame R n) (hF' : IsFrame R' n) (hs : s = 1 ∨ s = -1)
+    (hT : TrisInPlane n d Ts) (h : Triangulates vs Ts) (ho : OrientedBy3 n s Ts) (hne : Ts ≠ []) :
+    Poly2.polarMoment vs R = Poly2.polarMoment vs R' := by
+  rw [polarMoment_general_exact hF hs hT h ho hne, polarMoment_general_exact hF' hs hT h ho hne]
+
+/-- **the inertia tensor does not depend on either kabsch matrix**: any frames `R, R'` of `n` and `R2, R2'` of `ẑ` -/
+theorem inertiaTensor_frame_independent {vs : List (V3 ℝ)} {n : V3 ℝ} {d s : ℝ} {R R' R2 R2' : M3 ℝ}
+    {Ts : List (Tri ℝ)} (hF : IsFrame R n) (hF' : IsFrame R' n) (hF2 : IsFrame R2 ⟨0, 0, 1⟩)
+    (hF2' : IsFrame R2' ⟨0, 0, 1⟩) (hs : s = 1 ∨ s = -1)
+    (hpl : InPlane n d vs) (hT : TrisInPlane n d Ts) (h : Triangulates vs Ts)
+    (ho : OrientedBy3 n s Ts) (hne : Ts ≠ []) :
+    Poly2.inertiaTensor vs n R R2 = Poly2.inertiaTensor vs n R' R2' := by
+  rw [inertiaTensor_general_exact hF hF2 hs hpl hT h ho hne,
+    inertiaTensor_general_exact hF' hF2' hs hpl hT h ho hne]
+
+/-! ## `Polygon.inertia_tensor` as a state-machine step (temporary frame) -/
+
+open PolyState
+
+/-- **the object is restored**: after `inertia_tensor` both geometry fields are what they were -/
+theorem inertiaTensorStep_restores (st : PolyState ℝ) (R R2 : M3 ℝ) :
+    (inertiaTensorStep st R R2).1 = st := rfl
+
+/-- every C04 query leaves the object state unchanged … -/
+theorem observe_state (q : Query) (st : PolyState ℝ) (R R2 : M3 ℝ) : (observe q st R R2).1 = st := by
+  cases q <;> rfl
+
+/-- … so does any history of queries … -/
+theorem observeAll_state (qs : List Query) (st : PolyState ℝ) (R R2 : M3 ℝ) :
+    (observeAll qs st R R2).1 = st := by
+  induction qs generalizing st with
+  | nil => rfl
+  | cons q rest ih => simp only [observeAll, observe_state, ih]
+
+/-- … and **no query can observe the temporary frame**: in every history (any order, any repetitions, any
+number of `inertia_tensor` reads in between) each answer is the one a freshly built object would give. -/
+theorem observeAll_values (qs : List Query) (st : PolyState ℝ) (R R2 : M3 ℝ) :
+    (observeAll qs st R R2).2 = qs.map (fun q => (observe q st R R2).2) := by
+  induction qs generalizing st with
+  | nil => rfl
+  | cons q rest ih => simp only [observeAll, observe_state, ih, List.map_cons]
+
+theorem v3_add_zero_sub (v c : V3 ℝ) : v + ((⟨lit 0, lit 0, lit 0⟩ : V3 ℝ) - c) = v - c := by
+  ext <;> simp [V3.add_x, V3.add_y, V3.add_z, V3.sub_x, V3.sub_y, V3.sub_z, Scalar.lit] <;> ring
+
+/-- the xy signed-area formula is half the shoelace sum, for every vertex list -/
+theorem signedArea_xy_shoelace (w : List (V3 ℝ)) :
+    Poly2.signedArea w ⟨0, 0, 1⟩ = (List.zipWith Poly2.delta w (Poly2.rotl 1 w)).sum / 2 := by
+  have hk : Poly2.argmax3 (0:ℝ) 0 1 = 2 := by simp [Poly2.argmax3]
+  have key := shoelace_reindex w
+  unfold Poly2.signedArea
+  simp only [Scalar.sum_real, V3.norm, V3.normSq, V3.dot, Scalar.abs_real, Scalar.sqrt_real,
+    Scalar.lit, Scalar.ofNat_real, abs_zero, abs_one, hk, V3.get_two]
+  norm_num
+  rw [key]; ring
+
+/-- **the area read in the temporary frame** (centred, rotated by `R`, normal `ẑ`) is the area of the polygon -/
+theorem tempFrame_area {vs : List (V3 ℝ)} {n : V3 ℝ} {d : ℝ} {R : M3 ℝ} (hF : IsFrame R n)
+    (hpl : InPlane n d vs) (c : V3 ℝ) :
+    Poly2.area (Poly2.align R (vs.map (· - c))) ⟨0, 0, 1⟩ = Poly2.area vs n := by
+  unfold Poly2.area
+  rw [signedArea_xy_shoelace, ← Scalar.sum_real, shoelace_frame_exact hF, dot_areaVector_translate,
+    signedArea_general_exact hpl hF.norm_eq]
+  congr 1; ring
+
+/-- **the state-machine step computes the pure function** `Poly2.inertiaTensor` (which reads the area of the
+original polygon): reading `area` inside the temporary frame makes no difference. -/
+theorem inertiaTensorStep_value {vs : List (V3 ℝ)} {n : V3 ℝ} {d : ℝ} {R : M3 ℝ} (R2 : M3 ℝ)
+    (hF : IsFrame R n) (hpl : InPlane n d vs) :
+    (inertiaTensorStep ⟨vs, n⟩ R R2).2 = Poly2.inertiaTensor vs n R R2 := by
+  have hz : (⟨lit 0, lit 0, lit 1⟩ : V3 ℝ) = ⟨0, 0, 1⟩ := by
+    simp [Scalar.lit]
+  simp only [inertiaTensorStep, setCentroid, Poly2.inertiaTensor, v3_add_zero_sub, hz, tempFrame_area hF hpl]
+
+/-- **`inertia_tensor` as executed (temporary frame, restore) is exact**, for any frame matrices -/
+theorem inertiaTensorStep_exact {vs : List (V3 ℝ)} {n : V3 ℝ} {d s : ℝ} {R R2 : M3 ℝ}
+    {Ts : List (Tri ℝ)} (hF : IsFrame R n) (hF2 : IsFrame R2 ⟨0, 0, 1⟩) (hs : s = 1 ∨ s = -1)
+    (hpl : InPlane n d vs) (hT : TrisInPlane n d Ts) (h : Triangulates vs Ts)
+    (ho : OrientedBy3 n s Ts) (hne : Ts ≠ []) :
+    inertiaTensorStep ⟨vs, n⟩ R R2 =
+      (⟨vs, n⟩, Spec3.axisTensor n (s * Spec3.polarAbout n (Spec3.centroid n Ts) Ts) (s * Spec3.area n Ts)
+        (Spec3.centroid n Ts)) := by
+  apply Prod.ext
+  · rfl
+  · rw [inertiaTensorStep_value R2 hF hpl, inertiaTensor_general_exact hF hF2 hs hpl hT h ho hne]
+
+/-! ### non-vacuity of the new statements (the tilted 5 × 1 rectangle) -/
+
+example : Poly2.signedArea exTilt exN = integral3 exN (fun _ => 1) exTiltT :=
+  signedArea_general_integral exTilt_inPlane exN_norm exTilt_triangulates
+
+example : Poly2.planarMoments exTilt exR =
+    (1 * integral3 exN (fun r => (M3.mulVec exR r).y * (M3.mulVec exR r).y) exTiltT,
+     1 * integral3 exN (fun r => (M3.mulVec exR r).x * (M3.mulVec exR r).x) exTiltT,
+     1 * integral3 exN (fun r => (M3.mulVec exR r).x * (M3.mulVec exR r).y) exTiltT) :=
+  planarMoments_frame_integral exR_frame (Or.inl rfl) exTilt_triangulates exTiltT_oriented (by simp [exTiltT])
+
+/-- a second frame for the same normal: `exR` followed by a quarter turn about `ẑ` -/
+def exR' : M3 ℝ := ⟨0, 1, 0, -4/5, 0, -3/5, -3/5, 0, 4/5⟩
+
+theorem exR'_frame : IsFrame exR' exN := by
+  refine ⟨⟨?_, ?_, ?_, ?_, ?_, ?_, ?_⟩, ?_⟩ <;>
+    simp [exR', exN, M3.det, M3.mulVec] <;> norm_num
+
+theorem exTilt_area_ne : V3.dot exN (Spec3.areaVector exTilt) ≠ 0 := by
+  rw [areaVector_triangulation exN exTilt_triangulates]
+  have := oriented3_area_pos exTiltT_oriented (by simp [exTiltT])
+  linarith
+
+example : Poly2.centroid exTilt exN exR = Poly2.centroid exTilt exN exR' :=
+  centroid_frame_independent exR_frame exR'_frame exTilt_inPlane exTilt_area_ne
+
+example : Poly2.inertiaTensor exTilt exN exR M3.one = Poly2.inertiaTensor exTilt exN exR' M3.one :=
+  inertiaTensor_frame_independent exR_frame exR'_frame isFrame_one isFrame_one (Or.inl rfl) exTilt_inPlane
+    exTiltT_inPlane exTilt_triangulates exTiltT_oriented (by simp [exTiltT])
+
+example : (inertiaTensorStep ⟨exTilt, exN⟩ exR M3.one).2 = Poly2.inertiaTensor exTilt exN exR M3.one :=
+  inertiaTensorStep_value M3.one exR_frame exTilt_inPlane
+
+example : (observeAll [.inertia, .planar, .polar, .inertia, .centroid] ⟨exTilt, exN⟩ exR M3.one).2
+    = [.inertia, .planar, .polar, .inertia, .centroid].map (fun q => (observe q ⟨exTilt, exN⟩ exR M3.one).2) :=
+  observeAll_values _ _ _ _
+
+
+/-! ## Per-run certificates (what used to be "the oracle's ear clipping is trusted")
+
+  The driver evaluates `Spec2.triangulationCheck`, `Spec2.orientCheck`, `Spec2.flatCheck` exactly over `ℚ` on the
+  oracle's own vertex cycle `w` and triangle list `Ts` (op `cert.planar`), and prints `Spec2.area/first/second`
+  of the same list (op `spec.planar`, `Q` mode). -/
+
+open CCk in
+/-- **the certified oracle**: when the three checks pass, the triangle list is a positively oriented
+triangulation of the cycle in the chain sense, and the rational numbers the driver prints are the ITERATED
+INTEGRALS `∫1, ∫x, ∫y, ∫x², ∫y², ∫xy` over it. -/
+theorem certified_oracle {w : List (V3 ℚ)} {Ts : List (Tri ℚ)}
+    (hc : Spec2.triangulationCheck w Ts = true) (ho : Spec2.orientCheck Ts = true) :
+    Triangulates (w.map v3OfRat) (Ts.map triOfRat) ∧ OrientedBy 1 (Ts.map triOfRat) ∧ Ts.map triOfRat ≠ [] ∧
+    ((Spec2.area Ts : ℚ) : ℝ) = integral2 (fun _ => 1) (Ts.map triOfRat) ∧
+    ((Spec2.first Ts 0 : ℚ) : ℝ) = integral2 (fun p => p.x) (Ts.map triOfRat) ∧
+    ((Spec2.first Ts 1 : ℚ) : ℝ) = integral2 (fun p => p.y) (Ts.map triOfRat) ∧
+    ((Spec2.second Ts 0 0 : ℚ) : ℝ) = integral2 (fun p => p.x * p.x) (Ts.map triOfRat) ∧
+    ((Spec2.second Ts 1 1 : ℚ) : ℝ) = integral2 (fun p => p.y * p.y) (Ts.map triOfRat) ∧
+    ((Spec2.second Ts 0 1 : ℚ) : ℝ) = integral2 (fun p => p.x * p.y) (Ts.map triOfRat) := by
+  obtain ⟨hne, hor⟩ := PlanarCert.orientCheck_sound ho
+  have f0 := first_integral (Ts.map triOfRat) 0
+  have f1 := first_integral (Ts.map triOfRat) 1
+  have s00 := second_integral (Ts.map triOfRat) 0 0
+  have s11 := second_integral (Ts.map triOfRat) 1 1
+  have s01 := second_integral (Ts.map triOfRat) 0 1
+  simp only [V3.get_zero, V3.get_one] at f0 f1 s00 s11 s01
+  refine ⟨PlanarCert.triangulationCheck_sound hc, hor, hne, ?_, ?_, ?_, ?_, ?_, ?_⟩
+  · rw [← PlanarCert.area_ofRat, area_integral]
+  · rw [← PlanarCert.first_ofRat, f0]
+  · rw [← PlanarCert.first_ofRat, f1]
+  · rw [← PlanarCert.second_ofRat, s00]
+  · rw [← PlanarCert.second_ofRat, s11]
+  · rw [← PlanarCert.second_ofRat, s01]
+
+open CCk in
+/-- **certified xy-plane polygon** (vertices = doubles = rationals, `n = +ẑ`, `R = 1`): when the checks pass on
+the object's OWN stored vertex list, the model's signed area, planar moments and polar moment are exactly
+the rationals printed by the driver's `Q`-mode spec — no hypothesis left for the run to trust. -/
+theorem certified_xy_model {w : List (V3 ℚ)} {Ts : List (Tri ℚ)}
+    (hc : Spec2.triangulationCheck w Ts = true) (ho : Spec2.orientCheck Ts = true) :
+    Poly2.signedArea (w.map v3OfRat) ⟨0, 0, 1⟩ = ((Spec2.area Ts : ℚ) : ℝ) ∧
+    Poly2.planarMoments (w.map v3OfRat) M3.one =
+      (((Spec2.second Ts 1 1 : ℚ) : ℝ), ((Spec2.second Ts 0 0 : ℚ) : ℝ), ((Spec2.second Ts 0 1 : ℚ) : ℝ)) ∧
+    Poly2.polarMoment (w.map v3OfRat) M3.one = ((Spec2.second Ts 0 0 + Spec2.second Ts 1 1 : ℚ) : ℝ) := by
+  obtain ⟨hne, hor⟩ := PlanarCert.orientCheck_sound ho
+  have htri : Triangulates (w.map v3OfRat) (Ts.map triOfRat) := PlanarCert.triangulationCheck_sound hc
+  have htri' : Triangulates (Poly2.align M3.one (w.map v3OfRat)) (Ts.map triOfRat) := by
+    rw [align_one]; exact htri
+  refine ⟨?_, ?_, ?_⟩
+  · rw [signedArea_xy_exact htri, PlanarCert.area_ofRat]
+  · rw [planarMoments_exact M3.one (Or.inl rfl) htri' hor hne]
+    simp only [one_mul, PlanarCert.second_ofRat]
+  · rw [polarMoment_exact M3.one (Or.inl rfl) htri' hor hne]
+    simp only [one_mul, PlanarCert.second_ofRat]
+    push_cast; rfl
+
+open CCk in
+/-- certified centroid and inertia tensor of an xy-plane polygon at height `z = 0` -/
+theorem certified_xy_inertia {w : List (V3 ℚ)} {Ts : List (Tri ℚ)}
+    (hc : Spec2.triangulationCheck w Ts = true) (ho : Spec2.orientCheck Ts = true)
+    (hf : Spec2.flatCheck w Ts = true) :
+    (inertiaTensorStep ⟨w.map v3OfRat, ⟨0, 0, 1⟩⟩ M3.one M3.one).2 =
+      Spec3.axisTensor ⟨0, 0, 1⟩
+        (1 * (Spec2.second (Ts.map triOfRat) 0 0 + Spec2.second (Ts.map triOfRat) 1 1
+          - Spec2.area (Ts.map triOfRat) * (Spec2.centroidX (Ts.map triOfRat) * Spec2.centroidX (Ts.map triOfRat)
+            + Spec2.centroidY (Ts.map triOfRat) * Spec2.centroidY (Ts.map triOfRat))))
+        (1 * Spec2.area (Ts.map triOfRat))
+        ⟨Spec2.centroidX (Ts.map triOfRat), Spec2.centroidY (Ts.map triOfRat), 0⟩ := by
+  obtain ⟨hne, hor⟩ := PlanarCert.orientCheck_sound ho
+  obtain ⟨hz, hTz⟩ := PlanarCert.flatCheck_sound hf
+  have htri : Triangulates (w.map v3OfRat) (Ts.map triOfRat) := PlanarCert.triangulationCheck_sound hc
+  have hpl : InPlane ⟨0, 0, 1⟩ 0 (w.map v3OfRat) := fun v hv => by
+    simp only [V3.dot]; rw [hz v hv]; ring
+  rw [inertiaTensorStep_value M3.one isFrame_one hpl]
+  exact inertiaTensor_exact (Or.inl rfl) hz hTz htri hor hne
+
+/-- non-vacuity of the certificates: the unit square with its two-triangle fan passes all three checks -/
+def exSqQ : List (V3 ℚ) := [⟨0,0,0⟩, ⟨1,0,0⟩, ⟨1,1,0⟩, ⟨0,1,0⟩]
+def exSqTQ : List (Tri ℚ) := [⟨⟨0,0,0⟩, ⟨1,0,0⟩, ⟨1,1,0⟩⟩, ⟨⟨0,0,0⟩, ⟨1,1,0⟩, ⟨0,1,0⟩⟩]
+
+example : Spec2.triangulationCheck exSqQ exSqTQ = true := by decide +kernel
+example : Spec2.orientCheck exSqTQ = true := by decide +kernel
+example : Spec2.flatCheck exSqQ exSqTQ = true := by decide +kernel
+/-- … and a wrong "triangulation" (one triangle missing) is rejected -/
+example : Spec2.triangulationCheck exSqQ (exSqTQ.take 1) = false := by decide +kernel
+
+example : Poly2.signedArea (exSqQ.map CCk.v3OfRat) ⟨0, 0, 1⟩ = ((Spec2.area exSqTQ : ℚ) : ℝ) :=
+  (certified_xy_model (by decide +kernel) (by decide +kernel)).1
+
+
+/-! ## More: the contract is satisfiable for every plane; perimeter; the property's xy clause; clockwise certificates -/
+
+/-- **for every unit normal there is a matrix meeting the kabsch contract** (Rodrigues' rotation; a half turn for
+`n = −ẑ`): the hypothesis `IsFrame R n` of the theorems above is never vacuous, and by the
+`…_frame_independent` theorems the values do not depend on which such matrix kabsch returns. -/
+theorem frame_exists {n : V3 ℝ} (hn : V3.norm n = 1) : ∃ R, IsFrame R n := exists_frame hn
+
+/-- **perimeter = arc length** `Σ_edges ∫₀¹ |γ_e'(t)| dt` of the closed boundary polyline -/
+theorem perimeter_arclength (vs : List (V3 ℝ)) :
+    Poly2.perimeter vs = ((cycleEdges vs).map (fun e => arcLength (segPt e.1 e.2))).sum :=
+  perimeter_arcLength vs
+
+theorem rotl_map {β γ : Type} (f : β → γ) (k : Nat) (l : List β) :
+    Poly2.rotl k (l.map f) = (Poly2.rotl k l).map f := by
+  simp only [rotl_eq_rotate, List.map_rotate]
+
+/-- **perimeter is invariant under rigid motions** `v ↦ R v + c` (in particular: it is the same in every plane) -/
+theorem perimeter_rigid_invariant {R : M3 ℝ} (hR : IsRot R) (c : V3 ℝ) (vs : List (V3 ℝ)) :
+    Poly2.perimeter (vs.map (fun v => M3.mulVec R v + c)) = Poly2.perimeter vs := by
+  unfold Poly2.perimeter
+  rw [rotl_map, List.zipWith_map]
+  congr 2
+  funext a b
+  have : M3.mulVec R b + c - (M3.mulVec R a + c) = M3.mulVec R (b - a) := by
+    ext <;> simp only [M3.mulVec, V3.sub_x, V3.sub_y, V3.sub_z, V3.add_x, V3.add_y, V3.add_z] <;> ring
+  rw [this, hR.norm_rot]
+
+/-- **the property's last clause, verbatim**: for a polygon in the xy-plane with `+z` normal (identity frame), listed in
+either direction, `(I_x, I_y, I_xy) = (∫ y² dA, ∫ x² dA, ∫ xy dA)` (unsigned: every triangle enters with `|J|`). -/
+theorem planarMoments_xy_integral {vs : List (V3 ℝ)} {Ts : List (Tri ℝ)} {s : ℝ}
+    (hs : s = 1 ∨ s = -1) (h : Triangulates vs Ts) (ho : OrientedBy s Ts) (hne : Ts ≠ []) :
+    Poly2.planarMoments vs M3.one =
+      ((Ts.map (fun t => triIntegral |jac2 t| (fun p => p.y * p.y) t)).sum,
+       (Ts.map (fun t => triIntegral |jac2 t| (fun p => p.x * p.x) t)).sum,
+       (Ts.map (fun t => triIntegral |jac2 t| (fun p => p.x * p.y) t)).sum) :=
+  planarMoments_integral_abs M3.one hs (by rw [align_one]; exact h) ho hne
+
+theorem triArea_rev (t : Tri ℝ) : Spec2.triArea t.rev = -Spec2.triArea t := by
+  simp only [Spec2.triArea, Tri.rev, Scalar.lit, Scalar.ofNat_real]; ring
+
+open CCk in
+/-- **certified xy-plane polygon listed CLOCKWISE**: the chain certificate on the stored cycle with clockwise
+triangles, the orientation certificate on the reversed triangles; the model returns the NEGATIVE area as signed
+area and the same (unsigned) moments. -/
+theorem certified_xy_model_cw {w : List (V3 ℚ)} {Ts : List (Tri ℚ)}
+    (hc : Spec2.triangulationCheck w Ts = true) (ho : Spec2.orientCheck (Ts.map Tri.rev) = true) :
+    Poly2.signedArea (w.map v3OfRat) ⟨0, 0, 1⟩ = Spec2.area (Ts.map triOfRat) ∧
+    Spec2.area (Ts.map triOfRat) < 0 ∧
+    Poly2.planarMoments (w.map v3OfRat) M3.one =
+      (-Spec2.second (Ts.map triOfRat) 1 1, -Spec2.second (Ts.map triOfRat) 0 0,
+       -Spec2.second (Ts.map triOfRat) 0 1) := by
+  obtain ⟨hne, hor⟩ := PlanarCert.orientCheck_sound ho
+  have htri : Triangulates (w.map v3OfRat) (Ts.map triOfRat) := PlanarCert.triangulationCheck_sound hc
+  have htri' : Triangulates (Poly2.align M3.one (w.map v3OfRat)) (Ts.map triOfRat) := by
+    rw [align_one]; exact htri
+  have hne' : Ts.map triOfRat ≠ [] := by
+    intro h0; apply hne
+    simp only [List.map_eq_nil_iff] at h0 ⊢; exact h0
+  have hor' : OrientedBy (-1) (Ts.map triOfRat) := by
+    intro t ht
+    obtain ⟨q, hq, rfl⟩ := List.mem_map.mp ht
+    have := hor (triOfRat q.rev) (by
+      simp only [List.map_map, List.mem_map, Function.comp]
+      exact ⟨q, hq, rfl⟩)
+    have e : triOfRat q.rev = (triOfRat q).rev := rfl
+    rw [e, triArea_rev] at this
+    linarith
+  refine ⟨signedArea_xy_exact htri, ?_, ?_⟩
+  · have := oriented_area_pos hor' hne'; linarith
+  · rw [planarMoments_exact M3.one (Or.inr rfl) htri' hor' hne']
+    simp only [neg_one_mul]
+
+example : ∃ R, IsFrame R exN := frame_exists exN_norm
+example : Poly2.perimeter (exTilt.map (fun v => M3.mulVec exR v + ⟨1, 2, 3⟩)) = Poly2.perimeter exTilt :=
+  perimeter_rigid_invariant exR_frame.rot _ _
+
+
+/-! ## … and the iterated integrals are LEBESGUE integrals over the triangles (subsets of `ℝ²`)
+
+  `TriInt.triSet t` = image of the standard triangle under the affine parametrisation = the triangle as a point set;
+  `∫ q in triSet t, F q` is Mathlib's Bochner/Lebesgue integral w.r.t. `volume` on `ℝ × ℝ` (Fubini + the change of
+  variables formula, `Lemmas/PlanarLebesgue.lean`).  What remains unformalised is only additivity over the
+  triangulation: `Σ_t ∫_{T_t} F = ∫_{polygon} F` (null overlaps / covering). -/
+
+open MeasureTheory in
+theorem sum_triIntegral_lebesgue {Ts : List (Tri ℝ)} (hJ : ∀ t ∈ Ts, jac2 t ≠ 0) (F : ℝ × ℝ → ℝ)
+    (hF : Continuous F) :
+    (Ts.map (fun t => triIntegral |jac2 t| (fun p => F (p.x, p.y)) t)).sum
+      = (Ts.map (fun t => ∫ q in triSet t, F q)).sum := by
+  congr 1
+  apply List.map_congr_left
+  intro t ht
+  exact triIntegral_eq_lebesgue t (hJ t ht) F hF
+
+theorem jac2_ne_of_oriented {s : ℝ} {Ts : List (Tri ℝ)} (ho : OrientedBy s Ts) : ∀ t ∈ Ts, jac2 t ≠ 0 := by
+  intro t ht h0
+  have := oriented_jac2 ho t ht
+  rw [h0] at this; simp at this
+
+open MeasureTheory in
+/-- **the property's xy clause with Lebesgue integrals**: `(I_x, I_y, I_xy) = Σ_t (∫_{T_t} y², ∫_{T_t} x², ∫_{T_t} xy)` -/
+theorem planarMoments_xy_lebesgue {vs : List (V3 ℝ)} {Ts : List (Tri ℝ)} {s : ℝ}
+    (hs : s = 1 ∨ s = -1) (h : Triangulates vs Ts) (ho : OrientedBy s Ts) (hne : Ts ≠ []) :
+    Poly2.planarMoments vs M3.one =
+      ((Ts.map (fun t => ∫ q in triSet t, q.2 * q.2)).sum,
+       (Ts.map (fun t => ∫ q in triSet t, q.1 * q.1)).sum,
+       (Ts.map (fun t => ∫ q in triSet t, q.1 * q.2)).sum) := by
+  have hJ := jac2_ne_of_oriented ho
+  rw [planarMoments_xy_integral hs h ho hne]
+  rw [← sum_triIntegral_lebesgue hJ (fun q => q.2 * q.2) (by fun_prop),
+    ← sum_triIntegral_lebesgue hJ (fun q => q.1 * q.1) (by fun_prop),
+    ← sum_triIntegral_lebesgue hJ (fun q => q.1 * q.2) (by fun_prop)]
+
+open MeasureTheory in
+/-- **area (xy-plane) = Σ_t Lebesgue measure of the triangles** (as `∫ 1`) -/
+theorem area_xy_lebesgue {vs : List (V3 ℝ)} {Ts : List (Tri ℝ)} {s : ℝ}
+    (hs : s = 1 ∨ s = -1) (h : Triangulates vs Ts) (ho : OrientedBy s Ts) (hne : Ts ≠ []) :
+    Poly2.area vs ⟨0, 0, 1⟩ = (Ts.map (fun t => ∫ _q in triSet t, (1:ℝ))).sum := by
+  have hJ := jac2_ne_of_oriented ho
+  have hp := oriented_area_pos ho hne
+  rw [← sum_triIntegral_lebesgue hJ (fun _ => 1) (by fun_prop), ← integral2_oriented hs _ (oriented_jac2 ho),
+    ← area_integral]
+  unfold Poly2.area
+  rw [signedArea_xy_exact h]
+  simp only [Scalar.abs_real]
+  rcases hs with rfl | rfl
+  · rw [abs_of_pos (by linarith)]; ring
+  · rw [abs_of_neg (by linarith)]; ring
+
+open MeasureTheory in
+/-- **centroid (xy-plane) = (Σ_t ∫_{T_t} x, Σ_t ∫_{T_t} y) / Σ_t ∫_{T_t} 1** -/
+theorem centroid_xy_lebesgue {vs : List (V3 ℝ)} {Ts : List (Tri ℝ)} {s : ℝ}
+    (hs : s = 1 ∨ s = -1) (h : Triangulates vs Ts) (ho : OrientedBy s Ts) (hne : Ts ≠ []) :
+    (Poly2.centroid vs ⟨0, 0, 1⟩ M3.one).x =
+      (Ts.map (fun t => ∫ q in triSet t, q.1)).sum / (Ts.map (fun t => ∫ _q in triSet t, (1:ℝ))).sum ∧
+    (Poly2.centroid vs ⟨0, 0, 1⟩ M3.one).y =
+      (Ts.map (fun t => ∫ q in triSet t, q.2)).sum / (Ts.map (fun t => ∫ _q in triSet t, (1:ℝ))).sum := by
+  have hJ := jac2_ne_of_oriented ho
+  have hp := oriented_area_pos ho hne
+  have hA : integral2 (fun _ => 1) Ts ≠ 0 := by
+    rw [← area_integral]; intro h0; rw [h0] at hp; simp at hp
+  have hs0 : s ≠ 0 := by rcases hs with rfl | rfl <;> norm_num
+  obtain ⟨hx, hy⟩ := centroid_xy_integral h hA
+  rw [← sum_triIntegral_lebesgue hJ (fun _ => 1) (by fun_prop),
+    ← sum_triIntegral_lebesgue hJ (fun q => q.1) (by fun_prop),
+    ← sum_triIntegral_lebesgue hJ (fun q => q.2) (by fun_prop),
+    ← integral2_oriented hs _ (oriented_jac2 ho), ← integral2_oriented hs _ (oriented_jac2 ho),
+    ← integral2_oriented hs _ (oriented_jac2 ho), hx, hy]
+  constructor <;> field_simp
+
+open MeasureTheory in
+/-- **polar moment in any plane as a Lebesgue integral in the coordinates of ANY frame**: `Σ_t ∫_{R T_t} |Rᵀ(x,y,d) − d n|²` -/
+theorem polarMoment_general_lebesgue {vs : List (V3 ℝ)} {n : V3 ℝ} {d s : ℝ} {R : M3 ℝ}
+    {Ts : List (Tri ℝ)} (hF : IsFrame R n) (hs : s = 1 ∨ s = -1) (hT : TrisInPlane n d Ts)
+    (h : Triangulates vs Ts) (ho : OrientedBy3 n s Ts) (hne : Ts ≠ []) :
+    Poly2.polarMoment vs R =
+      (Ts.map (fun t => ∫ q in triSet (t.map (M3.mulVec R)),
+        V3.normSq (M3.mulVec (M3.transpose R) ⟨q.1, q.2, d⟩ - V3.smul d n))).sum := by
+  rw [polarMoment_general_integral hF hs hT h ho hne, integral3_oriented hs n _ (oriented_jac3 ho)]
+  congr 1
+  apply List.map_congr_left
+  intro t ht
+  have hj : jac3 n t ≠ 0 := by
+    intro h0; have := oriented_jac3 ho t ht; rw [h0] at this; simp at this
+  refine triIntegral3_eq_lebesgue hF t (hT t ht) hj _ ?_
+  simp only [V3.normSq, V3.dot, M3.mulVec, M3.transpose, V3.sub_x, V3.sub_y, V3.sub_z, V3.smul_x, V3.smul_y, V3.smul_z]
+  fun_prop
 
 end
